@@ -67,7 +67,7 @@ func main() {
 		if rp.Program.Steps > 0 {
 			ms = rp.Program.Steps
 		}
-		res := runProgram(&rp.Program, rt.Config{Seed: rp.Seed, Strategy: "replay", Schedule: rp.Schedule, MaxSteps: ms, MaxTicks: rp.Program.MaxTicks})
+		res := runProgram(&rp.Program, rt.Config{Seed: rp.Seed, Strategy: "replay", Schedule: rp.Schedule, MaxSteps: ms, MaxTicks: rp.Program.MaxTicks, TickHold: rp.Program.TickHold})
 		emit(w, 0, &rp.Program, rp.Seed, res, *quiet)
 		return
 	}
@@ -91,11 +91,15 @@ func main() {
 			fmt.Fprintln(w, string(b))
 			continue
 		}
-		cfg := rt.Config{Seed: es, Strategy: "random", MaxSteps: *maxSteps, MaxTicks: p.MaxTicks, TickBias: p.TickBias}
+		cfg := rt.Config{Seed: es, Strategy: "random", MaxSteps: *maxSteps, MaxTicks: p.MaxTicks, TickBias: p.TickBias, TickHold: p.TickHold}
 		if p.Steps > 0 {
 			cfg.MaxSteps = p.Steps
 		}
-		switch r.Intn(3) {
+		sw := r.Intn(3)
+		if p.PCT && sw == 0 {
+			sw = 1
+		}
+		switch sw {
 		case 1:
 			cfg.Strategy = "pct"
 			cfg.PCTDepth = 1 + r.Intn(3)
